@@ -223,6 +223,7 @@ public:
     if (st_->mode == "raises") throw std::invalid_argument("generator failed (harness)");
     if (st_->mode == "raise_first" && st_->calls == 1) throw std::invalid_argument("generator failed once (harness)");
     if (st_->mode == "short" || st_->mode == "wrongform") return st_->alt;
+    if (st_->mode == "bad_first" && st_->calls == 1) return st_->alt;      // too short AND of another form, once
     return st_->eager;
   }
   void caches(std::vector<ak::ArrayCachePtr>& out) const override {}
@@ -289,7 +290,7 @@ static std::string virtual_run(const JV& st, Session& S) {
   gs->eager = mklayout(need(st, "eager"), S);
   gs->mode = gets(st, "mode", "ok");
   if (gs->mode == "short") gs->alt = gs->eager->getitem_range_nowrap(0, gs->eager->length() > 0 ? gs->eager->length() - 1 : 0);
-  if (gs->mode == "wrongform") gs->alt = mklayout(need(st, "alt"), S);
+  if (gs->mode == "wrongform" || gs->mode == "bad_first") gs->alt = mklayout(need(st, "alt"), S);
   bool dlen = geti(st, "declare_length", 0) != 0, dform = geti(st, "declare_form", 0) != 0;
   ak::FormPtr form = dform ? gs->eager->form(true) : ak::FormPtr(nullptr);
   int64_t length = dlen ? gs->eager->length() : -1;
